@@ -349,9 +349,38 @@ def load_known():
     return json.load(open(p)).get("findings", [])
 
 
-def classify(res, rundir):
+def race_reports(out):
+    """-> [(top frame of access 1, top frame of access 2, text)] for every race detector report in the output"""
+    reps = []
+    for block in out.split("WARNING: DATA RACE")[1:]:
+        block = block.split("==================")[0]
+        lines = block.splitlines()
+        tops = []
+        for i, l in enumerate(lines):
+            if re.match(r"^(Write at|Read at|Previous (write|read) at|Atomic|Previous atomic)", l.strip()) or re.match(r"^(Write|Read|Previous)", l):
+                for x in lines[i + 1:i + 4]:
+                    if x.strip().endswith(")") and not x.strip().startswith("/"):
+                        tops.append(x.strip())
+                        break
+        reps.append((tops[0] if tops else "?", tops[1] if len(tops) > 1 else "?", block[:3000]))
+    return reps
+
+
+def classify(res, rundir, u=None):
     """-> (status, failfiles, note) with status in ok|fail|infra"""
     out = open(res["out"], errors="replace").read()
+    ign = (u or {}).get("race_ignore")
+    if ign and res["rc"] != 0 and "WARNING: DATA RACE" in out and not re.search(r"^(panic:|fatal error:)", out, re.M) and "[rapid] failed" not in out:
+        reps = race_reports(out)
+        kept = [r for r in reps if not (re.search(ign, r[0]) or re.search(ign, r[1]))]
+        res["race_kept"] = kept
+        only_race = not re.search(r"^\s+\S+\.go:\d+: (?!race detected during execution of test)", "\n".join(
+            l for l in out.splitlines() if re.match(r"^\s+\S+_test\.go:\d+: ", l) and "[rapid] OK" not in l), re.M)
+        if not kept and only_race:
+            # every report involves an access made by the harness itself (its reset hooks run while goroutines of the
+            # stopped pipeline are still winding down): not the code under test
+            res["race_ignored"] = len(reps)
+            return "ok", [], "%d race report(s) between the harness's own reset hooks and leftover goroutines ignored" % len(reps)
     faildir = os.path.join(rundir, "fail")
     fails = []
     if os.path.isdir(faildir):
@@ -513,9 +542,11 @@ def main():
     umap = {u["name"]: u for u in units}
     for res in results:
         u = umap[res["unit"]]
-        status, fails, note = classify(res, rundir)
+        status, fails, note = classify(res, rundir, umap[res["unit"]])
         res["status"] = status
         if status == "ok":
+            if note:
+                log("note: %s: %s" % (res["name"], note))
             if u.get("kind") == "kf" and not replay:
                 log("note: open finding %s did not reproduce in this run" % u.get("finding"))
             continue
@@ -530,8 +561,9 @@ def main():
             status = "fail"
         if status == "crash":
             # the process died (or the test failed) without leaving a case file: the output is the replay
+            rk = res.get("race_kept") or (race_reports(outtxt) if "WARNING: DATA RACE" in outtxt else [])
             doc = {"property": pid, "facet": (u.get("facets") or [u["name"]])[0], "unit": u["name"],
-                   "message": "test process failed without a recorded case", "shard_index": res["shard"],
+                   "message": ("data race reported by the race detector between %s and %s" % (rk[0][0], rk[0][1])) if rk else "test process failed without a recorded case", "shard_index": res["shard"],
                    "rapid_seed": res["rapid_seed"], "seed": seed, "tier": tier, "output_tail": outtxt[-20000:]}
             fails = [os.path.join(rundir, "crash-%s.json" % res["name"])]
             json.dump(doc, open(fails[0], "w"), indent=1)
